@@ -844,7 +844,30 @@ func registerDigest(e *Engine) {
 
 // ---- misc runtime / os / logging ----
 
+// sortSlice implements sort.Slice / sort.SliceStable: a stable insertion sort
+// that calls the real less function (symbolic comparisons fork).
+func sortSlice(fr *Frame, a []Value) Value {
+	it := a[0].(Iface)
+	s, ok := it.V.([]Value)
+	if !ok {
+		panic(abort("unsupported: sort.Slice on a non-slice"))
+	}
+	less := a[1]
+	for i := 1; i < len(s); i++ {
+		for j := i; j > 0; j-- {
+			r := fr.p.call(fr, 0, less, []Value{smt.I(int64(j)), smt.I(int64(j - 1))})
+			if !fr.p.Branch(r.(*smt.T)) {
+				break
+			}
+			s[j], s[j-1] = s[j-1], s[j]
+		}
+	}
+	return nil
+}
+
 func registerMisc(e *Engine) {
+	e.on("sort.Slice", sortSlice)
+	e.on("sort.SliceStable", sortSlice)
 	nop := func(fr *Frame, a []Value) Value { return nil }
 	for _, n := range []string{"runtime.GC", "runtime.Gosched", "runtime.KeepAlive", "runtime.SetFinalizer",
 		"internal/race.Acquire", "internal/race.Release", "internal/race.ReleaseMerge", "internal/race.Disable", "internal/race.Enable",
